@@ -66,6 +66,10 @@ impl StatementBatch {
             }
             StatementBatch::Timeout(t) => {
                 let task = ctx.task();
+                // only a task that is still open can run into a timeout
+                if task.state().is_completed() {
+                    return Ok(());
+                }
                 let key = format!("{}{}", consts::IS_TIMEOUT_PROCESSED_PREFIX, t.on);
                 let is_timeout_processed = task
                     .with_data(|data| data.get::<bool>(&key))
